@@ -112,6 +112,11 @@ class Member:
         return int(self) >= int(o)
 
 
+_LIB_FUNCS = {"operator.or_", "operator.and_", "operator.xor", "operator.add", "operator.sub", "operator.mul", "operator.lshift", "operator.rshift",
+              "operator.mod", "operator.floordiv", "operator.getitem", "operator.not_", "functools.reduce", "itertools.chain", "itertools.chain.from_iterable",
+              "itertools.filterfalse", "itertools.starmap", "itertools.repeat", "builtins.filter", "builtins.map"}
+
+
 class Record:
     """Symbolic result of calling a constructor / opaque function at module level."""
 
@@ -738,6 +743,18 @@ class TE:
             return list(v)
         if isinstance(v, _DictView):
             return v.materialise()
+        if isinstance(v, Record) and isinstance(v.ctor, ClassRef) and any(getattr(b, "short", getattr(b, "name", "")) == "NamedTuple" for b in v.ctor.mro()):
+            # an instance of a typing.NamedTuple class: its fields in declaration order (positional then keyword arguments, defaults)
+            fields = _namedtuple_fields(v.ctor)
+            vals = list(v.args)
+            for name, default in fields[len(vals):]:
+                if name in v.kwargs:
+                    vals.append(v.kwargs[name])
+                elif default is not _NO_DEFAULT:
+                    vals.append(self.ev(default, self.repo.module(v.ctor.mod), v.ctor.mod))
+                else:
+                    raise AnalysisError(f"NamedTuple {v.ctor.name}: field {name} not supplied")
+            return vals
         raise AnalysisError(f"cannot iterate {v!r}")
 
     # ---- expressions
@@ -938,7 +955,22 @@ class TE:
         return self.e_ListComp(e, env, mod)
 
     def e_Lambda(self, e, env, mod):
-        return Record(TypeRef("builtins.lambda"), (), {"node": e})
+        return Record(TypeRef("builtins.lambda"), (), {"node": e, "env": env, "mod": mod})
+
+    def call_lambda(self, lam, args, kw):
+        node, env, mod = lam.kwargs["node"], lam.kwargs.get("env"), lam.kwargs.get("mod")
+        if env is None:
+            raise AnalysisError("lambda without a captured environment")
+        a = node.args
+        names = [x.arg for x in a.posonlyargs + a.args]
+        if a.vararg or a.kwarg or len(args) > len(names):
+            raise AnalysisError(f"{mod}:{node.lineno} lambda signature not modelled")
+        loc = {}
+        for n, d in zip(names[len(names) - len(a.defaults):], a.defaults):
+            loc[n] = self.ev(d, env, mod)
+        loc.update(zip(names, args))
+        loc.update(kw)
+        return self.ev(node.body, _ChainEnv(loc, env), mod)
 
     def e_JoinedStr(self, e, env, mod):
         parts = []
@@ -1035,6 +1067,8 @@ class TE:
     def call(self, f, args, kw, mod, e):
         if isinstance(f, _Bound):
             return f(*args, **kw)
+        if isinstance(f, TypeRef) and f.name in ("builtins.filter", "builtins.map") and not kw:
+            return self.lib_call(f.name, args, mod, e)
         if isinstance(f, TypeRef) and f.name.startswith("builtins."):
             n = f.short
             if n == "isinstance":
@@ -1089,9 +1123,64 @@ class TE:
             raise AnalysisError(f"{mod}:{e.lineno} builtin {n} not modelled")
         if isinstance(f, FuncRef) and f.cls is None:
             return self.inline(f, args, kw, mod, e)
+        if isinstance(f, Record) and f.ctor == TypeRef("builtins.lambda"):
+            return self.call_lambda(f, args, kw)
+        if isinstance(f, TypeRef) and f.name in _LIB_FUNCS and not kw:
+            return self.lib_call(f.name, args, mod, e)
         if isinstance(f, (TypeRef, ClassRef)):
             return Record(f, args, kw)
         raise AnalysisError(f"{mod}:{e.lineno} call of {f!r}")
+
+    def lib_call(self, name, args, mod, e):
+        """A few pure standard-library functions that table-building code uses (functools.reduce, operator.*, itertools.*)."""
+        ops = {"operator.or_": ast.BitOr, "operator.and_": ast.BitAnd, "operator.xor": ast.BitXor, "operator.add": ast.Add, "operator.sub": ast.Sub,
+               "operator.mul": ast.Mult, "operator.lshift": ast.LShift, "operator.rshift": ast.RShift, "operator.mod": ast.Mod, "operator.floordiv": ast.FloorDiv}
+        if name in ops:
+            return self.binop(ops[name](), args[0], args[1], mod, e)
+        if name == "operator.getitem":
+            b, k = args
+            try:
+                return b[k]
+            except Exception as ex:
+                raise AnalysisError(f"{mod}:{e.lineno} operator.getitem: {ex!r}")
+        if name == "operator.not_":
+            return not args[0]
+        if name == "functools.reduce":
+            fn, seq = args[0], list(self.iterate(args[1]))
+            if len(args) > 2:
+                acc = args[2]
+            elif seq:
+                acc, seq = seq[0], seq[1:]
+            else:
+                raise AnalysisError(f"{mod}:{e.lineno} reduce() of an empty sequence")
+            for x in seq:
+                acc = self.call(fn, [acc, x], {}, mod, e)
+            return acc
+        if name == "itertools.chain":
+            out = []
+            for a in args:
+                out.extend(self.iterate(a))
+            return out
+        if name == "itertools.chain.from_iterable":
+            out = []
+            for a in self.iterate(args[0]):
+                out.extend(self.iterate(a))
+            return out
+        if name in ("itertools.filterfalse", "builtins.filter"):
+            pred, seq = args[0], self.iterate(args[1])
+            keep = []
+            for x in seq:
+                t_ = bool(x) if pred is None else bool(self.call(pred, [x], {}, mod, e))
+                if t_ != (name == "itertools.filterfalse"):
+                    keep.append(x)
+            return keep
+        if name == "builtins.map":
+            return [self.call(args[0], list(xs), {}, mod, e) for xs in zip(*[self.iterate(a) for a in args[1:]])]
+        if name == "itertools.starmap":
+            return [self.call(args[0], list(self.iterate(xs)), {}, mod, e) for xs in self.iterate(args[1])]
+        if name == "itertools.repeat" and len(args) == 2:
+            return [args[0]] * args[1]
+        raise AnalysisError(f"{mod}:{e.lineno} {name} not modelled")
 
     def _isinstance(self, v, cls, mod, e):
         classes = cls if isinstance(cls, tuple) else (cls,)
@@ -1121,7 +1210,16 @@ class TE:
         a = node.args
         names = [x.arg for x in a.posonlyargs + a.args]
         if len(args) > len(names):
-            raise AnalysisError(f"{mod}:{e.lineno} too many args for {f.name}")
+            if a.vararg is None:
+                raise AnalysisError(f"{mod}:{e.lineno} too many args for {f.name}")
+            loc[a.vararg.arg] = tuple(args[len(names):])
+            args = args[:len(names)]
+        elif a.vararg is not None:
+            loc[a.vararg.arg] = ()
+        if a.kwarg is not None:
+            known = set(names) | {x.arg for x in a.kwonlyargs}
+            loc[a.kwarg.arg] = {k_: v_ for k_, v_ in kw.items() if k_ not in known}
+            kw = {k_: v_ for k_, v_ in kw.items() if k_ in known}
         menv = self.repo.module(f.mod)
         for n, d in zip(names[len(names) - len(a.defaults):], a.defaults):
             loc[n] = self.ev(d, menv, f.mod)
@@ -1199,6 +1297,17 @@ class _ChainEnv(dict):
 
     def pop(self, k, *d):
         return self.own.pop(k, *d)
+
+
+_NO_DEFAULT = object()
+
+
+def _namedtuple_fields(c):
+    out = []
+    for st in c.node.body:
+        if isinstance(st, ast.AnnAssign) and isinstance(st.target, ast.Name):
+            out.append((st.target.id, st.value if st.value is not None else _NO_DEFAULT))
+    return out
 
 
 def _as_load(t):
